@@ -25,6 +25,10 @@ pub fn set_thread_sim_time(on: bool) -> bool {
     SIM_TIME.try_with(|c| c.replace(on)).unwrap_or(false)
 }
 
+pub fn thread_on_sim_time() -> bool {
+    SIM_TIME.try_with(|c| c.get()).unwrap_or(false)
+}
+
 pub fn reset() {
     OFFSET_NS.store(0, Ordering::SeqCst);
 }
@@ -46,7 +50,7 @@ pub fn reads() -> u64 {
 pub fn real_now_ns() -> u64 {
     let mut ts = libc::timespec { tv_sec: 0, tv_nsec: 0 };
     unsafe {
-        libc::syscall(libc::SYS_clock_gettime, libc::CLOCK_MONOTONIC, &mut ts as *mut libc::timespec);
+        crate::sys::raw_syscall(libc::SYS_clock_gettime, libc::CLOCK_MONOTONIC, &mut ts as *mut libc::timespec);
     }
     ts.tv_sec as u64 * 1_000_000_000 + ts.tv_nsec as u64
 }
@@ -57,7 +61,7 @@ pub fn real_now_ns() -> u64 {
 /// Same contract as the C function: `ts` must be valid for writes.
 #[no_mangle]
 pub unsafe extern "C" fn clock_gettime(clk: libc::clockid_t, ts: *mut libc::timespec) -> libc::c_int {
-    let r = libc::syscall(libc::SYS_clock_gettime, clk, ts) as libc::c_int;
+    let r = crate::sys::raw_syscall(libc::SYS_clock_gettime, clk, ts) as libc::c_int;
     if r != 0 || ts.is_null() {
         return r;
     }
